@@ -56,6 +56,8 @@ def replay_schedule(rec, seed):
             ex.set_cells([])
         if seed % 5 == 0:
             ex.set_cells([xc.mk_cell(pos[c], v, rng.randint(0, 3)) for c, v in batch])
+    if seed % 4 == 1 and not xc.rejected_set(ex, pos, rng):         # a rejected set_cells call leaves overrides and sizes as they are
+        return False, 'a set_cells call naming a cell that cannot exist was accepted'
     sizes0 = xc.q_sizes(ex)
     if sizes0 != rec['sizes']:
         return False, f"sizes {sizes0} differ from used range (+) overrides {rec['sizes']}"
